@@ -468,7 +468,11 @@ def _cast(v, src, dst):
                     if dst.bits < v.size():
                         return z3.Extract(dst.bits - 1, 0, v)
                     return z3.SignExt(dst.bits - v.size(), v) if src.kind == "i" else z3.ZeroExt(dst.bits - v.size(), v)
-                # Int rep: in-range assumption (prototype: callers bound inputs); unsigned<-signed of negative not modelled
+                # Int rep.  Narrowing to an 8/16-bit type wraps exactly (modular arithmetic on the integer); 32/64-bit targets are the
+                # index dtypes: in range by the harness bounds (unsigned<-signed of a negative 64-bit value is not modelled)
+                if dst.bits <= 16 and (src.bits > dst.bits or src.kind != dst.kind) and z3.is_int(v):
+                    m = 1 << dst.bits
+                    return (v % m) if dst.kind == "u" else ((v + (m >> 1)) % m) - (m >> 1)
                 return v
             return _wrap_int(int(v), dst)
         if src.kind == "f":
